@@ -184,7 +184,8 @@ class AsyncSimpleClient:
                 await asyncio.wait_for(self.connected_event.wait(),
                                        timeout=timeout)
             except asyncio.TimeoutError:  # pragma: no cover
-                raise TimeoutError()
+                if not self.connected_event.is_set():
+                    raise TimeoutError()
             if not self.connected:
                 raise DisconnectedError()
             try:
